@@ -10,7 +10,7 @@ PROPS = {
         technique="property-based testing (rapid): generated allocation worlds and generated pool histories (ADD/DEL/balancer pass over empty ENI "
                   "slots and a small cloud whose new ENIs land in different vSwitches) run through the real daemon "
                   "AllocIP (real eni.Manager + Local/Trunk/CRDV2 allocators over a fake API server), reply checked "
-                  "against scenario ground truth and a big-integer gateway reference; after every ADD the real GetIPInfo (CHECK/DEL) is asked for the "
+                  "against scenario ground truth and a big-integer gateway reference (pod gateway per family; for trunk members also the trunk ENI gateway in ENIInfo: third-from-last of the trunk ENI's own subnet of that family from the real CRDV2.getTrunkENI, or the metadata gateway on the legacy path, present for every family the pod has an address in); after every ADD the real GetIPInfo (CHECK/DEL) is asked for the "
                   "same sandbox, put under the same oracle and compared with the ADD reply; the ADD reply is then marshalled and fed to the "
                   "plugin's real parseSetupConf and the GetIPInfo reply to the real parseTearDownConf (DEL) and parseCheckConf (CHECK), which must "
                   "recover the addresses, gateway, interface name, ENI index and flags the daemon sent (and ADD recovered); datapath: CHECK == ADD == "
